@@ -113,6 +113,22 @@ CHECKS["C17"] = dict(
     technique="Lean 4 theorems (codec round trip, state-machine invariants over all histories) + history correspondence with private-state snapshots",
 )
 
+CHECKS["C15"] = dict(
+    category="proof",
+    text="numeric_intervals_from_regex (all six handlers, sign/zero stripping, compress, merge) and compress_concatenation_elements are "
+    "transcribed into Lean over a regex AST with SMT-LIB denotation. Theorems for ALL inputs: the derivative matcher decides the denotation "
+    "(matchB_iff, incl. loops/complement/intersection); compress preserves the language of every concatenation (compress_lang); flattening "
+    "preserves it; merge_intervals denotes the union and yields bounded, sorted, separated intervals. Exactness of the inferred intervals is "
+    "proved for the concatenation-free shape (intervals_exact_partial: digits, ordered ranges, zero/full digit sequences, arbitrary unions) "
+    "and a counterexample for the full documented shape is proved (sign_not_leading_counterexample = the known finding). Tie: z3-built regexes "
+    "through the real functions vs the model, plus property-level probing of the REAL output with the verified matcher on numbers around "
+    "every interval boundary (sign/zero-padding renderings).",
+    design_ref="DESIGN.md section 7 C15",
+    note="PARTIAL for the sequence forms of the documented shape: their exactness is searched (probing), not proved. Known finding "
+    "inexact:sign-not-leading (pinned by an existing test, not repaired). Python int() leniency and out-of-shape inputs are not modelled.",
+    technique="Lean 4 theorems (matcher = denotation, compress/merge laws, exactness on a fragment, proved counterexample) + correspondence + verified-matcher probing",
+)
+
 NOT_APPLICABLE = {
     "C22": "reproducibility across fresh processes depends on hash randomisation, Z3 seeds/timeouts and wall-clock time; a functional Lean model would prove determinism vacuously and no executable model can exhibit the failure (DESIGN.md section 8)",
 }
